@@ -78,14 +78,12 @@ impl VariableAccess {
     }
 }
 
-/// Tracks component instantiations `var = T(...)` where then template `T` is
-/// either `LessThan` or `Num2Bits`.
+/// Tracks component instantiations `var = T(...)`, where the template `T` is
+/// `LessThan`, `Num2Bits`, or another template.
 enum Component {
     LessThan,
     Num2Bits { bit_size: Box<Expression> },
-    /// The component is instantiated in more than one way (for example with a different
-    /// number of bits in each branch of a conditional statement).
-    Unknown,
+    Other,
 }
 
 impl Component {
@@ -96,53 +94,45 @@ impl Component {
     fn num_2_bits(bit_size: &Expression) -> Self {
         Self::Num2Bits { bit_size: Box::new(bit_size.clone()) }
     }
-
-    /// Returns true if the two instantiations are the same.
-    fn same_as(&self, other: &Component) -> bool {
-        match (self, other) {
-            (Self::LessThan, Self::LessThan) => true,
-            (Self::Num2Bits { bit_size }, Self::Num2Bits { bit_size: other_size }) => {
-                bit_size == other_size
-            }
-            _ => false,
-        }
-    }
 }
 
-/// Records the instantiation of the component. A component which is instantiated in different
-/// ways is not tracked (its inputs are not known to be range checked).
+/// Records the instantiation of the component. (A component may be instantiated more than
+/// once, for example in different ways in each branch of a conditional statement.)
 fn add_component(
-    components: &mut HashMap<VariableAccess, Component>,
+    components: &mut HashMap<VariableAccess, Vec<Component>>,
     access: VariableAccess,
     component: Component,
 ) {
-    use std::collections::hash_map::Entry;
-    match components.entry(access) {
-        Entry::Vacant(entry) => {
-            entry.insert(component);
-        }
-        Entry::Occupied(mut entry) => {
-            if !entry.get().same_as(&component) {
-                entry.insert(Component::Unknown);
-            }
-        }
-    }
+    components.entry(access).or_default().push(component);
 }
 
-/// Returns the instantiation of the component. If the access may refer to components which are
-/// instantiated in different ways the component is not tracked.
-fn get_component<'a>(
-    components: &'a HashMap<VariableAccess, Component>,
+/// Returns the instantiations of the components which the access may refer to.
+fn get_components<'a>(
+    components: &'a HashMap<VariableAccess, Vec<Component>>,
     access: &VariableAccess,
-) -> Option<&'a Component> {
-    let mut result: Option<&Component> = None;
-    for (other, component) in components {
-        if other.maybe_equal(access) {
-            match result {
-                None => result = Some(component),
-                Some(previous) if previous.same_as(component) => {}
-                Some(_) => return Some(&Component::Unknown),
-            }
+) -> Vec<&'a Component> {
+    components
+        .iter()
+        .filter(|(other, _)| other.maybe_equal(access))
+        .flat_map(|(_, components)| components.iter())
+        .collect()
+}
+
+/// Returns true if the component may be an instance of `LessThan` (so its inputs need to
+/// be range checked).
+fn may_be_less_than(components: &[&Component]) -> bool {
+    components.iter().any(|component| matches!(component, Component::LessThan))
+}
+
+/// Returns the number of bits if the component is an instance of `Num2Bits` with this number
+/// of bits however it is instantiated (only then its input is known to be range checked).
+fn get_bit_size<'a>(components: &[&'a Component]) -> Option<&'a Expression> {
+    let mut result = None;
+    for component in components {
+        match (component, result) {
+            (Component::Num2Bits { bit_size }, None) => result = Some(bit_size.as_ref()),
+            (Component::Num2Bits { bit_size }, Some(previous)) if bit_size.as_ref() == previous => {}
+            _ => return None,
         }
     }
     result
@@ -247,7 +237,7 @@ pub fn find_unconstrained_less_than(cfg: &Cfg) -> ReportCollection {
     reports
 }
 
-fn update_components(stmt: &Statement, components: &mut HashMap<VariableAccess, Component>) {
+fn update_components(stmt: &Statement, components: &mut HashMap<VariableAccess, Vec<Component>>) {
     use AssignOp::*;
     use Statement::*;
     use Expression::*;
@@ -282,7 +272,7 @@ fn update_components(stmt: &Statement, components: &mut HashMap<VariableAccess, 
             } else {
                 // The component may also be instantiated as `LessThan` or `Num2Bits`.
                 let component = VariableAccess::new(var, &access);
-                add_component(components, component, Component::Unknown);
+                add_component(components, component, Component::Other);
             }
         }
     }
@@ -290,7 +280,7 @@ fn update_components(stmt: &Statement, components: &mut HashMap<VariableAccess, 
 
 fn update_inputs(
     stmt: &Statement,
-    components: &HashMap<VariableAccess, Component>,
+    components: &HashMap<VariableAccess, Vec<Component>>,
     inputs: &mut Vec<ComponentInput>,
 ) {
     use AssignOp::*;
@@ -306,7 +296,7 @@ fn update_inputs(
         let mut component_access = access.clone();
         let signal_access = component_access.pop();
         let component = VariableAccess::new(var, &component_access);
-        if let Some(Component::Num2Bits { bit_size, .. }) = get_component(components, &component) {
+        if let Some(bit_size) = get_bit_size(&get_components(components, &component)) {
             let Some(ComponentAccess(signal_name)) = signal_access else {
                 return;
             };
@@ -322,14 +312,19 @@ fn update_inputs(
         let mut component_access = access.clone();
         let signal_access = component_access.pop();
         let component = VariableAccess::new(var, &component_access);
-        if let Some(Component::LessThan { .. }) = get_component(components, &component) {
-            if let (Some(ComponentAccess(signal_name)), InlineArray { values, .. }) =
-                (signal_access, rhe.as_ref())
-            {
+        if may_be_less_than(&get_components(components, &component)) {
+            if let Some(ComponentAccess(signal_name)) = signal_access {
                 if signal_name == "in" {
-                    for value in values {
-                        trace!("`LessThan` input signal assignment `{value}` found");
-                        inputs.push(ComponentInput::less_than(value));
+                    if let InlineArray { values, .. } = rhe.as_ref() {
+                        for value in values {
+                            trace!("`LessThan` input signal assignment `{value}` found");
+                            inputs.push(ComponentInput::less_than(value));
+                        }
+                    } else {
+                        // Both inputs are given by an array. (This is not known to be range
+                        // checked, even if its elements are.)
+                        trace!("`LessThan` input signal assignment `{rhe}` found");
+                        inputs.push(ComponentInput::less_than(rhe));
                     }
                 }
             }
@@ -342,7 +337,7 @@ fn update_inputs(
         let index_access = component_access.pop();
         let signal_access = component_access.pop();
         let component = VariableAccess::new(var, &component_access);
-        if let Some(Component::LessThan { .. }) = get_component(components, &component) {
+        if may_be_less_than(&get_components(components, &component)) {
             let (Some(ComponentAccess(signal_name)), Some(ArrayAccess(_))) =
                 (signal_access, index_access)
             else {
